@@ -120,7 +120,7 @@ impl Prop for C13 {
         "C13"
     }
     fn rule(&self) -> String {
-        "bases: 37 feature modules covering every production of the grammar G (single- and multi-module) and the N smallest real-world modules of the repository that tokenize (quick 12, thorough 60), each re-printed with single spaces; for every token boundary (X.680 §12 tokens: multi-word reserved sequences are several tokens) the separator is replaced by each of 17 forms {two spaces, tab, LF, CRLF, none where separable, `--c<LF>` tight and spaced, `-- c --`, `/* c */` tight and spaced, nested block comments (depth 2, depth 3, siblings), comments containing quotes/braces/keywords/non-ASCII, comments spelled like the generator's internal markers}; thorough adds all boundaries at once per form and every pair of adjacent boundaries for the feature modules. Oracle: differential — same Ok/Err class and warning count and the same syn projection minus #[doc] as the single-space base. Non-trivial: the base compiles Ok and the edited text was compiled and compared.".into()
+        "bases: 38 feature modules covering every production of the grammar G (single- and multi-module) and the N smallest real-world modules of the repository that tokenize (quick 12, thorough 60), each re-printed with single spaces; for every token boundary (X.680 §12 tokens: multi-word reserved sequences are several tokens) the separator is replaced by each of 17 forms {two spaces, tab, LF, CRLF, none where separable, `--c<LF>` tight and spaced, `-- c --`, `/* c */` tight and spaced, nested block comments (depth 2, depth 3, siblings), comments containing quotes/braces/keywords/non-ASCII, comments spelled like the generator's internal markers}; thorough adds all boundaries at once per form and every pair of adjacent boundaries for the feature modules. Oracle: differential — same Ok/Err class and warning count and the same syn projection minus #[doc] as the single-space base. Non-trivial: the base compiles Ok and the edited text was compiled and compared.".into()
     }
     fn enumerate(&self, tier: Tier, _seed: u64) -> Vec<Case> {
         let mut bases: Vec<(String, Vec<Tok>)> = vec![];
